@@ -33,7 +33,7 @@ namespace {
         bool record = false;
         bool emit_program = false;
         int wall_cap = 60;
-        char tmpdir[256] = "/verif/build/tmp";
+        char tmpdir[256] = "/verif/build/tmp";    // overridden by --tmpdir
         bool list = false;
     };
 
